@@ -293,3 +293,25 @@ def scalar_matrix(gen, per_cell=3):
                 td, vd = mk(v)
                 cases.append({"t": td, "v": vd, "tag": "scalar:%s:%s" % (k, pname)})
     return cases
+
+
+NAMED_SCALARS = {"MyInt": "int", "MyI8": "int8", "MyU16": "uint16", "MyU32": "uint32", "MyU64": "uint64", "MyU8": "uint8",
+                 "MyI64": "int64", "MyF32": "float32", "MyF64": "float64", "MyBool": "bool", "MyStr": "string"}
+
+
+def named_scalar_matrix(gen):
+    """Named scalar types (type IPv4 uint32 …) x boundary values x the positions that take the dynamic paths:
+    by value, behind a pointer at top level, as elements of []*T, inside interface{}, as map values and fields."""
+    cases = []
+    for name, k in sorted(NAMED_SCALARS.items()):
+        t = Reg(name)
+        for v in gen.scalar_bounds(k):
+            pos = [
+                ("top", t, v), ("ptr", Ptr(t), {"v": v}), ("sliceptr", Slice(Ptr(t)), [{"v": v}, None, {"v": v}]),
+                ("slice", Slice(t), [v, v]), ("iface", Slice(IFACE), [{"t": t, "v": v}, {"t": Ptr(t), "v": {"v": v}}]),
+                ("mapptr", Map(T("string"), Ptr(t)), [["6b", {"v": v}]]),
+                ("field", Anon([("F", t, ""), ("P", Ptr(t), "")]), {"F": v, "P": {"v": v}}),
+            ]
+            for pname, td, vd in pos:
+                cases.append({"t": td, "v": vd, "tag": "named:%s:%s" % (name, pname)})
+    return cases
